@@ -2,26 +2,30 @@
 
     /venv/bin/python -m harness.vacuity [--tier quick|thorough|all] [--report] [--only SUBSTR] [--jobs N] [--workers W]
 
-Re-runs every exhaustive model-checking configuration of the selected tier with
-`-coverage 1` (same command line as harness.common.tlc) and reads TLC's coverage
-statistics.  Exit 1 if
+Re-runs every exhaustive model-checking configuration of the selected tier with `-coverage 1` (the command line of
+harness.common.run_mc/tlc, in a scratch copy of spec/, see thin_rat) and reads TLC's coverage statistics.  Exit 1 if
 
-  * an action (a disjunct of Next / an Init predicate, as TLC splits them) was never
-    taken (`0:0`) or never produced a state (`n:0`) or never found a NEW state (`0:m`),
-  * a sub-expression of an action body was never evaluated (a disjunct / IF- or
-    CASE-branch of a monolithic Next that is dead in this configuration),
-  * a sub-expression of an INVARIANT was never evaluated (a law whose guard is never
-    true: it holds vacuously in this configuration),
-  * the model finishes with fewer than MIN_STATES distinct states,
-  * a configuration that is expected to pass fails / one that is expected to be refuted passes,
+  * an action (a disjunct of Next / an Init predicate, as TLC splits them) was never taken (`0:0`, `n:0`) or never
+    found a NEW state (`0:m`)                                                                        [kind "action"]
+  * a sub-expression of an action was never evaluated: a disjunct / IF- or CASE-branch of a monolithic Next that is
+    dead in this configuration                                                                        [kind "branch"]
+  * a sub-expression of an INVARIANT was never evaluated: the law's guard is never true, the law holds vacuously
+    in this configuration (or one of its IF/CASE branches is never exercised)                         [kind "law"]
+  * the model finishes with fewer than MIN_STATES distinct states                                     [kind "tiny"]
+  * a configuration that must pass fails / a refutation configuration (defective design) passes
 
-unless the finding is on the allow-list harness/vacuity_allow.json (every entry carries a
-reason).  Exit 0 otherwise, 2 on machinery failure.  No verdict about dadi is computed
-here: this only guards the models against checking nothing.
+unless the finding is on the allow-list harness/vacuity_allow.json (every entry carries a reason).  Exit 0 otherwise,
+2 on machinery failure.  No verdict about dadi is computed here: this only guards the models against checking nothing.
 
-Allow-list entry: {"cfg": fnmatch pattern, "kind": "action"|"branch"|"law"|"tiny",
-"where": name of the action / invariant, "expr": prefix of the (whitespace-normalised)
-source text of the dead expression ("" for kind action/tiny), "reason": "..."}.
+Allow-list entry: {"cfg": fnmatch pattern, "kind": "action"|"branch"|"law"|"tiny", "where": name of the action /
+invariant, "expr": prefix of the (whitespace-normalised) source text of the dead expression (for kind "action": of the
+unnamed disjunct of Next, "" for a named action), "reason": "..."}.
+
+TLC's cost model clones an operator's body at every call site.  Two consequences are handled here:
+  * Rat.tla: see thin_rat() (bodies of the Java-overridden operators are irrelevant and are cut out);
+  * DemesIOMC: the laws built on Import(Export(..)) have a cost model of > 10^7 nodes (not built within 15 min).  For
+    the modules in PROBED only the listed laws are covered; the guards of the others are checked to be reachable by a
+    second, plain TLC run that prints which guards hold in some state (module VacProbe_<M>, generated).
 """
 import argparse, fnmatch, json, os, re, shutil, signal, subprocess, sys, tempfile, time
 from concurrent.futures import ThreadPoolExecutor
@@ -92,12 +96,42 @@ CONFIGS = [
 NOT_EXHAUSTIVE = {'DemesIOMC_gen.cfg', 'DemesIOMC_gen5.cfg', 'MemoMC_sim_all.cfg', 'MemoMC_sim_memo.cfg',
                   'DFECacheMC_paths2.cfg', 'DFECacheMC_paths3.cfg', 'DFECacheMC_paths5.cfg', 'DFECacheMC_paths6.cfg', 'RatSelfTest.cfg'}
 
+
+# modules whose laws cannot be covered by TLC's cost model: laws that can, and guards (law, name, state predicate) that
+# must hold in at least one reachable state of every configuration of the module
+PROBED = {
+    'DemesIOMC': {
+        'laws': ['L_Exportable', 'L_ExportUnits'],
+        'probes': [
+            ('L_AncientFrozen', 'guard', 'prog[N].k = "int" /\\ NP >= 2 /\\ NP <= 4'),
+            ('L_AncientFrozen', 'MidSize-constant', 'prog[N].k = "int" /\\ NP >= 2 /\\ NP <= 4 /\\ \\E i \\in 1..NP : prog[N].sizes[i].fn = "constant"'),
+            ('L_AncientFrozen', 'MidSize-linear',
+             'prog[N].k = "int" /\\ NP >= 2 /\\ NP <= 4 /\\ \\E i \\in 1..NP : prog[N].sizes[i].fn = "linear" /\\ prog[N].sizes[i].s0 # prog[N].sizes[i].s1'),
+            ('L_AncientFrozen', 'MidSize-exponential',
+             'prog[N].k = "int" /\\ NP >= 2 /\\ NP <= 4 /\\ \\E i \\in 1..NP : prog[N].sizes[i].fn = "exponential" /\\ prog[N].sizes[i].s0 # prog[N].sizes[i].s1'),
+            ('L_AncientBoundary', 'guard', 'N >= 3 /\\ prog[N].k = "int" /\\ prog[N - 1].k = "int"'),
+            ('L_RoundTrip', 'split', '\\E j \\in 1..N : prog[j].k = "split" /\\ \\E i \\in DOMAIN prog[j].props : prog[j].props[i] = "1"'),
+            ('L_RoundTrip', 'admixture', '\\E j \\in 1..N : prog[j].k = "split" /\\ \\A i \\in DOMAIN prog[j].props : prog[j].props[i] # "1"'),
+            ('L_RoundTrip', 'pulse', '\\E j \\in 1..N : prog[j].k = "pulse"'),
+            ('L_RoundTrip', 'remove', '\\E j \\in 1..N : prog[j].k = "remove"'),
+            ('L_RoundTrip', 'reorder', '\\E j \\in 1..N : prog[j].k = "reorder"'),
+            ('L_RoundTrip', 'migration', '\\E j \\in 1..N : prog[j].k = "int" /\\ \\E a, b \\in DOMAIN prog[j].mig : prog[j].mig[a][b] # "0"'),
+            ('L_Permute', 'three-populations', 'NP = 3'),
+        ]},
+}
+
+# measured wall seconds (4 workers, thin Rat, busy machine) -- only used to start the long runs first
+COST = {'SpectrumOpsMC_C10_quick.cfg': 215, 'TLSpectrumMC_quick.cfg': 77, 'SpectrumIOMC_quick.cfg': 67, 'MsIOMC_quick.cfg': 53,
+        'SchemeMC_C03_quick.cfg': 44, 'SpectrumOpsMC_C08_quick.cfg': 34, 'SpectrumOpsMC_C09_quick.cfg': 34, 'LikelihoodMC_quick.cfg': 28,
+        'SchemeMC_C02_quick.cfg': 27, 'SchemeMC_C04_quick.cfg': 26, 'DataDictMC_flags_quick.cfg': 26, 'LowPassMC_quick.cfg': 25}
+
 _LOC = r'line (\d+), col (\d+) to line (\d+), col (\d+) of module (\w+)'
-_HEAD = re.compile(r'^<(\w+) ' + _LOC + r'>(?:: (\d+)(?::(\d+))?)?\s*$')
+_HEAD = re.compile(r'^<(\w+) ' + _LOC + r'(?: \((\d+) (\d+) (\d+) (\d+)\))?>(?:: (\d+)(?::(\d+))?)?\s*$')
 _SUB = re.compile(r'^  (\|*)' + _LOC + r': (\d+)(?::(\d+))?\s*$')
 _STATES = re.compile(r'(\d+) states generated, (\d+) distinct states found, (\d+) states left on queue')
 
 
+# ------------------------------------------------------------------------------------------ TLC's coverage statistics
 class Node:
     __slots__ = ('depth', 'loc', 'count', 'cost', 'children')
 
@@ -106,20 +140,21 @@ class Node:
 
 
 class Head:
-    def __init__(self, name, loc, a, b):
-        self.name, self.loc, self.a, self.b, self.children = name, loc, a, b, []
+    """<Name line .. of module M>: distinct:generated   (action / init predicate)
+       <Name line .. of module M (l1 c1 l2 c2)>: d:g    (unnamed disjunct of the definition Name; .sub = its location)
+       <Name line .. of module M>                       (invariant)
+       <name line .. of module M>: n                    (variable: number of distinct values, not used)"""
+
+    def __init__(self, name, loc, a, b, sub=None):
+        self.name, self.loc, self.a, self.b, self.sub, self.children = name, loc, a, b, sub, []
 
     @property
     def kind(self):
-        if self.a is None:
-            return 'law'
-        if self.b is None:
-            return 'var'
-        return 'action'
+        return 'law' if self.a is None else 'var' if self.b is None else 'action'
 
 
 def parse_coverage(out):
-    """Last complete coverage block of a TLC run -> list of Head."""
+    """The last coverage block of a TLC run -> list of Head (None if there is none)."""
     k = out.rfind('The coverage statistics at')
     if k < 0:
         return None
@@ -129,19 +164,22 @@ def parse_coverage(out):
             break
         m = _HEAD.match(ln)
         if m:
-            loc = (int(m.group(2)), int(m.group(3)), int(m.group(4)), int(m.group(5)), m.group(6))
-            heads.append(Head(m.group(1), loc, None if m.group(7) is None else int(m.group(7)), None if m.group(8) is None else int(m.group(8))))
+            g = m.groups()
+            sub = None if g[6] is None else (int(g[6]), int(g[7]), int(g[8]), int(g[9]), g[5])
+            heads.append(Head(g[0], (int(g[1]), int(g[2]), int(g[3]), int(g[4]), g[5]),
+                              None if g[10] is None else int(g[10]), None if g[11] is None else int(g[11]), sub))
             stack = []
             continue
         m = _SUB.match(ln)
         if m and heads:
-            d = len(m.group(1))
-            loc = (int(m.group(2)), int(m.group(3)), int(m.group(4)), int(m.group(5)), m.group(6))
-            n = Node(d, loc, int(m.group(7)), None if m.group(8) is None else int(m.group(8)))
-            while stack and stack[-1].depth >= d:
+            g = m.groups()
+            n = Node(len(g[0]), (int(g[1]), int(g[2]), int(g[3]), int(g[4]), g[5]), int(g[6]), None if g[7] is None else int(g[7]))
+            while stack and stack[-1].depth >= n.depth:
                 stack.pop()
             (stack[-1].children if stack else heads[-1].children).append(n)
             stack.append(n)
+        elif ln.startswith('<') or ln.startswith('  '):
+            raise ValueError('unparsed line of the coverage statistics: %r' % ln)
     return heads
 
 
@@ -149,11 +187,11 @@ _src_cache = {}
 
 
 def source(loc, limit=110):
+    """Whitespace-normalised source text of a location (comments dropped), cut to `limit` characters."""
     l1, c1, l2, c2, mod = loc
     if mod not in _src_cache:
-        p = os.path.join(SPEC, mod + '.tla')
         try:
-            with open(p) as f:
+            with open(os.path.join(SPEC, mod + '.tla')) as f:
                 _src_cache[mod] = f.read().split('\n')
         except OSError:
             _src_cache[mod] = None
@@ -164,8 +202,7 @@ def source(loc, limit=110):
         txt = lines[l1 - 1][c1 - 1:c2]
     else:
         txt = '\n'.join([lines[l1 - 1][c1 - 1:]] + lines[l1:l2 - 1] + [lines[l2 - 1][:c2]])
-    txt = re.sub(r'\\\*[^\n]*', ' ', txt)
-    txt = re.sub(r'\s+', ' ', txt).strip()
+    txt = re.sub(r'\s+', ' ', re.sub(r'\\\*[^\n]*', ' ', txt)).strip()
     return txt if len(txt) <= limit else txt[:limit - 3] + '...'
 
 
@@ -181,7 +218,7 @@ def dead_nodes(children):
 
 
 def rare_nodes(children, parent, limit):
-    """Sub-expressions evaluated at most `limit` times although their parent was evaluated more often (report only)."""
+    """Sub-expressions evaluated at most `limit` times although their parent was evaluated 10 times more often (--report only)."""
     res = []
     for n in children:
         if 0 < n.count <= limit and parent > 10 * n.count:
@@ -192,33 +229,31 @@ def rare_nodes(children, parent, limit):
 
 
 def findings_of(cfg, out, states, rare=0):
-    """-> list of dict(cfg, kind, where, expr, detail)."""
+    """-> list of dict(cfg, kind, where, expr, detail), or None if the output has no coverage statistics."""
     heads = parse_coverage(out)
     if heads is None:
         return None
     f = []
+    at = lambda n: '%s:%d:%d' % (n.loc[4], n.loc[0], n.loc[1])
     for h in heads:
         if h.kind == 'action':
+            sub = source(h.sub, 60) if h.sub else ''
             if h.b == 0:
-                f.append({'cfg': cfg, 'kind': 'action', 'where': h.name, 'expr': '', 'detail': 'never taken (%d:%d): %s' % (h.a, h.b, source(h.loc))})
+                f.append({'cfg': cfg, 'kind': 'action', 'where': h.name, 'expr': sub, 'detail': 'never taken (%d:%d)' % (h.a, h.b)})
                 continue
             if h.a == 0:
-                f.append({'cfg': cfg, 'kind': 'action', 'where': h.name, 'expr': '', 'detail': 'never finds a new state (%d:%d)' % (h.a, h.b)})
+                f.append({'cfg': cfg, 'kind': 'action', 'where': h.name, 'expr': sub, 'detail': 'never finds a new state (%d:%d)' % (h.a, h.b)})
             for n in dead_nodes(h.children):
-                f.append({'cfg': cfg, 'kind': 'branch', 'where': h.name, 'expr': source(n.loc), 'detail': '%s:%d:%d never evaluated' % (n.loc[4], n.loc[0], n.loc[1])})
+                f.append({'cfg': cfg, 'kind': 'branch', 'where': h.name, 'expr': source(n.loc), 'detail': at(n) + ' never evaluated'})
         elif h.kind == 'law':
-            if not h.children:
-                continue
             for n in dead_nodes(h.children):
-                f.append({'cfg': cfg, 'kind': 'law', 'where': h.name, 'expr': source(n.loc), 'detail': '%s:%d:%d never evaluated' % (n.loc[4], n.loc[0], n.loc[1])})
+                f.append({'cfg': cfg, 'kind': 'law', 'where': h.name, 'expr': source(n.loc), 'detail': at(n) + ' never evaluated'})
             if rare:
                 for n in rare_nodes(h.children, max([c.count for c in h.children] + [0]), rare):
-                    f.append({'cfg': cfg, 'kind': 'rare', 'where': h.name, 'expr': source(n.loc),
-                              'detail': '%s:%d:%d evaluated only %d times' % (n.loc[4], n.loc[0], n.loc[1], n.count)})
+                    f.append({'cfg': cfg, 'kind': 'rare', 'where': h.name, 'expr': source(n.loc), 'detail': at(n) + ' evaluated only %d times' % n.count})
     if states < MIN_STATES:
         f.append({'cfg': cfg, 'kind': 'tiny', 'where': '', 'expr': '', 'detail': 'only %d distinct states' % states})
-    # one finding per (kind, where, expr): the same source expression may be reached on several paths
-    seen, uniq = set(), []
+    seen, uniq = set(), []      # the same source expression may be dead on several call paths: one finding
     for x in f:
         k = (x['kind'], x['where'], x['expr'])
         if k not in seen:
@@ -227,14 +262,15 @@ def findings_of(cfg, out, states, rare=0):
     return uniq
 
 
+# ------------------------------------------------------------------------------------------ allow-list
 def load_allow():
     if not os.path.exists(ALLOW):
         return []
     with open(ALLOW) as f:
         ents = json.load(f)['entries']
     for e in ents:
-        if not e.get('reason'):
-            raise SystemExit('vacuity_allow.json: entry without a reason: %r' % (e,))
+        if not e.get('reason') or e.get('kind') not in ('action', 'branch', 'law', 'tiny'):
+            raise SystemExit('vacuity_allow.json: entry without a reason / with an unknown kind: %r' % (e,))
     return ents
 
 
@@ -247,6 +283,7 @@ def allowed(x, allow):
     return None
 
 
+# ------------------------------------------------------------------------------------------ running TLC
 _OVERRIDE = re.compile(r'public static Value (\w+)\(')
 _DEF = re.compile(r'^(\w+)\(([^)]*)\)\s*==')
 
@@ -254,10 +291,12 @@ _DEF = re.compile(r'^(\w+)\(([^)]*)\)\s*==')
 def thin_rat(text, overridden):
     """Rat.tla with the TLA+ bodies of the Java-overridden operators replaced by a constant.
 
-    TLC never evaluates those bodies (the class Rat on the classpath does), but its coverage cost model clones the
-    body of an operator at every call site: with the real bodies (AddDef -> NormDef -> GCD ...) the cost model of a
-    numeric spec has 10^7 nodes, needs > 8 GB and slows TLC down 10-50 fold.  Positions in all other modules are
-    unchanged.  run_tlc() insists that TLC reports every one of these overrides as loaded."""
+    TLC never evaluates those bodies (the class Rat on the classpath does), but its coverage cost model clones the body
+    of an operator at every call site: with the real bodies (AddDef -> NormDef -> GCD ...) the cost model of a numeric
+    spec has 10^7 nodes, needs > 8 GB and slows TLC down 10-50 fold (measured: 7 of the 36 quick configurations run out
+    of memory).  Positions in all other modules are unchanged, and the evaluation counts outside module Rat are
+    identical to those of a run with the real Rat.tla (compared on 33 configurations).  run_tlc() insists that TLC
+    reports every one of these overrides as loaded.  --real-rat uses the real module."""
     out, skip = [], False
     for ln in text.split('\n'):
         m = _DEF.match(ln)
@@ -276,28 +315,50 @@ def thin_rat(text, overridden):
     return '\n'.join(out)
 
 
-def prepare_spec_dir(root):
-    """Copy of spec/ (modules and configurations) with the thin Rat.tla; returns (dir, names of the overridden operators)."""
+def _cfg_without_laws(text, keep):
+    return '\n'.join(ln for ln in text.split('\n') if not re.match(r'\s*(INVARIANTS?|PROPERTY|PROPERTIES)\b', ln)
+                     or (ln.split() + ['', ''])[1] in keep) + '\n'
+
+
+def prepare_spec_dir(root, real_rat=False):
+    """Scratch copy of spec/ (modules, configurations); thin Rat.tla; reduced configurations and probe modules for the
+    modules in PROBED.  Returns (dir, names of the overridden operators that must be reported as loaded)."""
     d = os.path.join(root, 'spec')
     os.makedirs(d, exist_ok=True)
     for f in os.listdir(SPEC):
         if f.endswith('.tla') or f.endswith('.cfg'):
             shutil.copy(os.path.join(SPEC, f), os.path.join(d, f))
-    with open(os.path.join(SPEC, 'java', 'Rat.java')) as f:
-        overridden = set(_OVERRIDE.findall(f.read()))
-    with open(os.path.join(SPEC, 'Rat.tla')) as f:
-        text = f.read()
-    with open(os.path.join(d, 'Rat.tla'), 'w') as f:
-        f.write(thin_rat(text, overridden))
-    defined = {m.group(1) for m in (_DEF.match(ln) for ln in text.split('\n')) if m}
-    return d, sorted(overridden & defined)
+    must = []
+    if not real_rat:
+        with open(os.path.join(SPEC, 'java', 'Rat.java')) as f:
+            overridden = set(_OVERRIDE.findall(f.read()))
+        with open(os.path.join(SPEC, 'Rat.tla')) as f:
+            text = f.read()
+        with open(os.path.join(d, 'Rat.tla'), 'w') as f:
+            f.write(thin_rat(text, overridden))
+        must = sorted(overridden & {m.group(1) for m in (_DEF.match(ln) for ln in text.split('\n')) if m})
+    for mod, spec in PROBED.items():
+        with open(os.path.join(d, 'VacProbe_%s.tla' % mod), 'w') as f:
+            f.write('---- MODULE VacProbe_%s ----\nEXTENDS %s\nVacProbe ==\n' % (mod, mod))
+            for k, (law, name, guard) in enumerate(spec['probes']):
+                f.write('    /\\ (IF %s THEN PrintT(<<"VACPROBE", %d>>) ELSE TRUE)\n' % (guard, k))
+            f.write('====\n')
+        for m, cfg, _t, expect in CONFIGS:
+            if m == mod and expect == 'pass':
+                with open(os.path.join(SPEC, cfg)) as f:
+                    text = f.read()
+                with open(os.path.join(d, 'VacCov_' + cfg), 'w') as f:
+                    f.write(_cfg_without_laws(text, spec['laws']))
+                with open(os.path.join(d, 'VacProbe_' + cfg), 'w') as f:
+                    f.write(_cfg_without_laws(text, ()) + 'INVARIANT VacProbe\n')
+    return d, must
 
 
-def run_tlc(module, cfg, workers, timeout, root, heap='8g', cwd=SPEC, must_load=()):
-    """Same command line as harness.common.run_mc -> tlc (8g heap) plus -coverage 1; own process group so that a timeout kills the JVM."""
+def run_tlc(module, cfg, workers, timeout, root, cwd, must_load=(), heap='8g', coverage=True, label=None):
+    """The command line of harness.common.run_mc -> tlc (8g heap) plus -coverage 1; own process group, so that a timeout kills the JVM."""
     metadir = tempfile.mkdtemp(prefix='meta-', dir=root)
     cmd = ['java', '-XX:+UseParallelGC', '-Xmx' + heap, '-Xss64m', '-cp', TLA_CP + ':' + CLASSES, 'tlc2.TLC', '-metadir', metadir,
-           '-noGenerateSpecTE', '-workers', str(workers), '-coverage', '1', '-config', cfg, module + '.tla']
+           '-noGenerateSpecTE', '-workers', str(workers)] + (['-coverage', '1'] if coverage else []) + ['-config', cfg, module + '.tla']
     t0 = time.time()
     p = subprocess.Popen(cmd, cwd=cwd, stdout=subprocess.PIPE, stderr=subprocess.STDOUT, start_new_session=True)
     try:
@@ -309,94 +370,123 @@ def run_tlc(module, cfg, workers, timeout, root, heap='8g', cwd=SPEC, must_load=
         timed_out = True
     shutil.rmtree(metadir, ignore_errors=True)
     out = out.decode(errors='replace')
-    with open(os.path.join(root, cfg + '.out'), 'w') as f:
+    with open(os.path.join(root, (label or cfg) + '.out'), 'w') as f:
         f.write(out)
+    return _result(module, cfg, out, time.time() - t0, timed_out, p.returncode, must_load)
+
+
+def _result(module, cfg, out, wall, timed_out, rc, must_load=()):
+    if must_load and 'Starting...' in out and re.search(r'Parsing file \S*/Rat\.tla', out):
+        missing = [o for o in must_load if 'Loading %s operator override' % o not in out]
+        if missing:
+            out = 'Error: vacuity: the Java overrides %s were not loaded: the thin Rat.tla must not be used\n' % missing
     ms = _STATES.findall(out)
-    missing = [o for o in must_load if 'Loading %s operator override' % o not in out] if 'Starting...' in out else []
-    if missing:
-        out = 'Error: vacuity: the Java overrides %s were not loaded: the thin Rat.tla must not be used\n' % missing
-        ms = []
-    return {'module': module, 'cfg': cfg, 'out': out, 'wall': time.time() - t0, 'timed_out': timed_out, 'rc': p.returncode,
+    return {'module': module, 'cfg': cfg, 'out': out, 'wall': wall, 'timed_out': timed_out, 'rc': rc,
             'generated': int(ms[-1][0]) if ms else 0, 'states': int(ms[-1][1]) if ms else 0,
             'ok': 'Model checking completed. No error has been found.' in out,
             'violated': ('is violated' in out or 'Deadlock reached' in out or 'properties were violated' in out)}
 
 
-def _reread(module, cfg, root):
-    """--from DIR: judge the TLC outputs kept by an earlier run (development aid)."""
-    with open(os.path.join(root, cfg + '.out')) as f:
-        out = f.read()
-    ms = _STATES.findall(out)
-    return {'module': module, 'cfg': cfg, 'out': out, 'wall': 0.0, 'timed_out': False, 'rc': 0,
-            'generated': int(ms[-1][0]) if ms else 0, 'states': int(ms[-1][1]) if ms else 0,
-            'ok': 'Model checking completed. No error has been found.' in out,
-            'violated': ('is violated' in out or 'Deadlock reached' in out or 'properties were violated' in out)}
+def _one(c, workers, timeout, root, cwd, must, reread):
+    """All TLC runs of one configuration -> (coverage result, probe result or None)."""
+    module, cfg, _t, expect = c
+    if reread:
+        def rd(name):
+            with open(os.path.join(reread, name + '.out')) as f:
+                return _result(module, cfg, f.read(), 0.0, False, 0)
+        return rd(cfg), (rd('VacProbe_' + cfg) if module in PROBED and expect == 'pass' else None)
+    if expect == 'fail':
+        return run_tlc(module, cfg, 2, timeout, root, cwd, must, coverage=False), None
+    if module in PROBED:
+        r = run_tlc(module, 'VacCov_' + cfg, workers, timeout, root, cwd, must, label=cfg)
+        pr = run_tlc('VacProbe_' + module, 'VacProbe_' + cfg, workers, timeout, root, cwd, must, coverage=False, label='VacProbe_' + cfg)
+        r['wall'] += pr['wall']
+        return r, pr
+    return run_tlc(module, cfg, workers, timeout, root, cwd, must), None
 
 
-def audit(tier='quick', only=None, jobs=4, workers=4, timeout=900, keep=None, report=False, out=sys.stdout, reread=None, real_rat=False):
+def audit(tier='quick', only=None, skip=None, jobs=4, workers=4, timeout=900, keep=None, report=False, reread=None, real_rat=False, out=sys.stdout):
     if not os.path.exists(os.path.join(CLASSES, 'Rat.class')):
         print('build/classes/Rat.class missing: run ./setup.sh', file=out)
         return 2
-    sel = [c for c in CONFIGS if (tier == 'all' or c[2] == tier) and (not only or any(o in c[1] for o in only))]
+    sel = [c for c in CONFIGS if (tier == 'all' or c[2] == tier) and (not only or any(o in c[1] for o in only))
+           and not (skip and any(o in c[1] for o in skip))]
     allow = load_allow()
     t0 = time.time()
+    root = None
     if reread:
         sel = [c for c in sel if os.path.exists(os.path.join(reread, c[1] + '.out'))]
-        res = [(c, _reread(c[0], c[1], reread)) for c in sel]
+        cwd, must = None, ()
     else:
         root = keep or tempfile.mkdtemp(prefix='vac-', dir='/var/tmp')
         os.makedirs(root, exist_ok=True)
-        cwd, must = (SPEC, ()) if real_rat else prepare_spec_dir(root)
-        try:
-            with ThreadPoolExecutor(max_workers=jobs) as ex:
-                futs = [(c, ex.submit(run_tlc, c[0], c[1], 2 if c[3] == 'fail' else workers, timeout, root, '8g', cwd, must)) for c in sel]
-                res = [(c, f.result()) for c, f in futs]
-        finally:
-            if not keep:
-                shutil.rmtree(root, ignore_errors=True)
+        cwd, must = prepare_spec_dir(root, real_rat)
+    try:
+        order = sorted(sel, key=lambda c: -COST.get(c[1], 20 if c[3] == 'pass' else 1))      # long runs first
+        with ThreadPoolExecutor(max_workers=jobs) as ex:
+            futs = {c: ex.submit(_one, c, workers, timeout, root, cwd, must, reread) for c in order}
+            res = [(c, futs[c].result()) for c in sel]
+    finally:
+        if root and not keep:
+            shutil.rmtree(root, ignore_errors=True)
     bad, machinery, rows = [], [], []
-    for (module, cfg, _t, expect), r in res:
-        if r['timed_out']:
+    for (module, cfg, _t, expect), (r, pr) in res:
+        if r['timed_out'] or (pr and pr['timed_out']):
             machinery.append('%s: timed out after %ds' % (cfg, timeout))
+            rows.append((cfg, 0, r['wall'], 'TIMEOUT (not audited)'))
             continue
         if expect == 'fail':
-            if r['ok'] or not r['violated']:
+            refuted = r['violated'] and not r['ok']
+            if not refuted:
                 bad.append({'cfg': cfg, 'kind': 'refutation', 'where': '', 'expr': '', 'detail': 'the defective design was NOT refuted'})
-            rows.append((cfg, r['states'], r['wall'], 'refuted as expected' if r['violated'] and not r['ok'] else 'NOT REFUTED'))
+            rows.append((cfg, r['states'], r['wall'], 'refuted as expected' if refuted else 'NOT REFUTED'))
             continue
-        if not r['ok']:
-            if r['violated']:
-                m = re.search(r'Error: (.*(?:violated|reached).*)', r['out'])
-                bad.append({'cfg': cfg, 'kind': 'violation', 'where': '', 'expr': '', 'detail': 'TLC: ' + (m.group(1) if m else 'violation')})
-            else:
-                machinery.append('%s: TLC failed (rc %s)\n%s' % (cfg, r['rc'], r['out'][-1500:]))
+        for q in (r, pr):
+            if q and not q['ok']:
+                if q['violated']:
+                    m = re.search(r'Error: (.*(?:violated|reached).*)', q['out'])
+                    bad.append({'cfg': cfg, 'kind': 'violation', 'where': '', 'expr': '', 'detail': 'TLC: ' + (m.group(1) if m else 'violation')})
+                else:
+                    machinery.append('%s: TLC failed (rc %s)\n%s' % (cfg, q['rc'], '\n'.join(l for l in q['out'].split('\n') if not l.startswith('Loading '))[-1500:]))
+        if not r['ok'] or (pr and not pr['ok']):
+            rows.append((cfg, r['states'], r['wall'], 'FAILED'))
             continue
-        fs = findings_of(cfg, r['out'], r['states'], rare=3 if report else 0)
+        try:
+            fs = findings_of(cfg, r['out'], r['states'], rare=3 if report else 0)
+        except ValueError as ex:
+            fs = None
+            machinery.append('%s: %s' % (cfg, ex))
         if fs is None:
             machinery.append('%s: no coverage statistics in the TLC output' % cfg)
             continue
+        note = ''
+        if pr:
+            hit = {int(k) for k in re.findall(r'<<"VACPROBE", (\d+)>>', pr['out'])}
+            for k, (law, name, guard) in enumerate(PROBED[module]['probes']):
+                if k not in hit:
+                    fs.append({'cfg': cfg, 'kind': 'law', 'where': law, 'expr': 'probe ' + name, 'detail': 'no reachable state satisfies ' + guard})
+            note = '; laws %s covered, the others by %d reachability probes' % (','.join(PROBED[module]['laws']), len(PROBED[module]['probes']))
         new = [x for x in fs if x['kind'] != 'rare' and not allowed(x, allow)]
         bad += new
         nd = len([x for x in fs if x['kind'] != 'rare'])
-        rows.append((cfg, r['states'], r['wall'], '%d dead (%d allowed)' % (nd, nd - len(new))))
+        rows.append((cfg, r['states'], r['wall'], '%d dead, %d of them allowed%s' % (nd, nd - len(new), note)))
         if report:
             for x in fs:
-                e = allowed(x, allow)
-                print('  %-34s %-7s %-22s %s   [%s]%s' % (cfg, x['kind'], x['where'], x['expr'], x['detail'], '  ALLOWED: ' + e['reason'] if e else ''), file=out)
+                e = allowed(x, allow) if x['kind'] != 'rare' else None
+                print('  %-32s %-7s %-20s %s   [%s]%s' % (cfg, x['kind'], x['where'], x['expr'], x['detail'], '  ALLOWED: ' + e['reason'] if e else ''), file=out)
     print('%-36s %10s %7s  %s' % ('config', 'distinct', 'wall_s', 'coverage'), file=out)
     for cfg, st, w, note in rows:
         print('%-36s %10d %7.1f  %s' % (cfg, st, w, note), file=out)
-    stale = [e for e in allow if not e.get('_used') and not only and tier in ('all',)]
-    for e in stale:
-        print('note: allow-list entry no longer needed: %s %s %s %r' % (e['cfg'], e['kind'], e.get('where', ''), e.get('expr', '')), file=out)
-    print('vacuity: %d configs, %.0f s wall' % (len(sel), time.time() - t0), file=out)
+    if tier == 'all' and not only and not skip:
+        for e in allow:
+            if not e.get('_used'):
+                print('note: allow-list entry matches nothing any more: %s %s %s %r' % (e['cfg'], e['kind'], e.get('where', ''), e.get('expr', '')), file=out)
+    print('vacuity: %d configurations, %.0f s wall' % (len(sel), time.time() - t0), file=out)
     for m in machinery:
         print('MACHINERY ' + m, file=out)
     for x in bad:
         print('VACUOUS %s %s %s %r  -- %s' % (x['cfg'], x['kind'], x['where'], x['expr'], x['detail']), file=out)
-    if machinery:
-        return 2
-    return 1 if bad else 0
+    return 2 if machinery else 1 if bad else 0
 
 
 def list_unknown():
@@ -410,21 +500,22 @@ def list_unknown():
 
 
 def main(argv=None):
-    ap = argparse.ArgumentParser(description=__doc__.split('\n')[0])
+    ap = argparse.ArgumentParser(description='Vacuity guard for the exhaustive TLC models (see the module docstring)')
     ap.add_argument('--tier', default='quick', choices=['quick', 'thorough', 'all'])
     ap.add_argument('--only', action='append', help='substring of the cfg name (repeatable)')
+    ap.add_argument('--skip', action='append', help='substring of cfg names to leave out (repeatable)')
     ap.add_argument('--jobs', type=int, default=4, help='TLC processes in parallel')
     ap.add_argument('--workers', type=int, default=4, help='TLC workers per process')
-    ap.add_argument('--timeout', type=int, default=900)
+    ap.add_argument('--timeout', type=int, default=900, help='seconds per TLC run')
     ap.add_argument('--keep', help='directory (under /var/tmp) to keep the raw TLC outputs in')
     ap.add_argument('--from', dest='reread', help='judge the outputs kept in this directory instead of running TLC')
-    ap.add_argument('--real-rat', action='store_true', help='run in spec/ itself with the full Rat.tla (slow, memory hungry: see thin_rat)')
-    ap.add_argument('--report', action='store_true', help='print every dead expression, allowed or not')
+    ap.add_argument('--real-rat', action='store_true', help='use the full Rat.tla (slow, memory hungry: see thin_rat)')
+    ap.add_argument('--report', action='store_true', help='print every dead / rarely evaluated expression, allowed or not')
     ap.add_argument('--list-unknown', action='store_true', help='list spec/*.cfg files this table does not know')
     a = ap.parse_args(argv)
     if a.list_unknown:
         return list_unknown()
-    return audit(a.tier, a.only, a.jobs, a.workers, a.timeout, a.keep, a.report, reread=a.reread, real_rat=a.real_rat)
+    return audit(a.tier, a.only, a.skip, a.jobs, a.workers, a.timeout, a.keep, a.report, a.reread, a.real_rat)
 
 
 if __name__ == '__main__':
